@@ -82,8 +82,15 @@ def _tag(kind):
     return lambda s: {"kind": kind, "text": s}
 
 
-ANY_TEXT = st.one_of(TOKEN_SOUP.map(_tag("soup")), TOKEN_SOUP.map(_tag("soup")), RAW_TEXT.map(_tag("raw")),
-                     DAMAGED.map(_tag("damaged")), WELL_FORMED.map(_tag("wellformed")))
+def _crlf(t):
+    tagged, k = t
+    if k == 0 and "\n" in tagged["text"] and "\r" not in tagged["text"]:
+        return {"kind": tagged["kind"], "text": tagged["text"].replace("\n", "\r\n")}      # Windows line ends
+    return tagged
+
+
+ANY_TEXT = st.tuples(st.one_of(TOKEN_SOUP.map(_tag("soup")), TOKEN_SOUP.map(_tag("soup")), RAW_TEXT.map(_tag("raw")),
+                               DAMAGED.map(_tag("damaged")), WELL_FORMED.map(_tag("wellformed"))), st.integers(0, 4)).map(_crlf)
 
 # texts known to be slow (C16 findings) are steered away from by construction in every other property
 import re as _re
